@@ -415,6 +415,15 @@ func cmdCheck(args []string) int {
 					inconclusive = append(inconclusive, fmt.Sprintf("SPURIOUS-ENGINE %s: counterexample for %s (%s) did not reproduce natively: native status=%s fails=%v msg=%s vec=%v",
 						row.Func, c.f.ID, c.f.Msg, nr.Status, nr.Fails, nr.Msg, trimVec(c.f.Vector)))
 				}
+			case "INCONC":
+				// a path the engine could not finish (unwinding cap, unsupported construct): the
+				// model of its path condition is run natively; a native assertion failure or crash
+				// on that input is a violation found by the solver's input, anything else leaves
+				// the path inconclusive (already listed)
+				if len(nr.Fails) > 0 || nr.Status == "CRASH" {
+					violations++
+					violationLines = append(violationLines, writeReplay(id, row, params, c.f, fmt.Sprintf("native run on the model of an inconclusive path (%s) fails %v %s", c.f.Msg, nr.Fails, nr.Msg)))
+				}
 			case "OOB":
 				// out-of-bounds access in the model; natively it may be silent. Reported as model-level memory-safety violation.
 				violations++
@@ -556,7 +565,7 @@ func doReplay(id, path string) int {
 	if rf.Kind == "PANIC" {
 		want = "no-panic"
 	}
-	if contains(r.Fails, want) || (rf.Kind == "KNOWN" && contains(r.Known, rf.Expect)) {
+	if contains(r.Fails, want) || (rf.Kind == "KNOWN" && contains(r.Known, rf.Expect)) || (rf.Kind == "INCONC" && (len(r.Fails) > 0 || r.Status == "CRASH")) {
 		fmt.Printf("VIOLATION property=%s replay=%s\n", id, path)
 		return 1
 	}
